@@ -21,6 +21,7 @@ func genMore() {
 	genLoaderFacts()
 	genNarrowFacts()
 	genBlockFacts()
+	genClassFacts()
 }
 
 type methInfo struct {
